@@ -195,6 +195,10 @@ func (wtr *JSONWtr) ident(p *node.Path) string {
 	var qualify bool
 	s := p.Meta.(meta.Identifiable).Ident()
 	thisMod := meta.NamespaceModule(p.Meta)
+	if p.Parent != nil && p.Parent.Meta == p.Meta {
+		// written from a selection on the leaf itself, the path names the leaf twice
+		p = p.Parent
+	}
 	if p.Len() == 2 { // top-level
 		qualify = true
 	} else {
